@@ -1,21 +1,24 @@
-/* h_c16.c - C16 group 1: the export write layer of src/export.c with an ARBITRARY exporter.
+/* h_c16.c - C16 group 1: the export write layer of src/export.c with a harness-defined exporter.
  *
- * The exporter is a harness-defined export module whose export() performs NOPS operations chosen symbolically
- * from everything export.h allows a module to do:
- *    vbi_export_write (0..LMAX symbolic bytes), vbi_export_putc, vbi_export_puts (string / NULL),
- *    vbi_export_flush, and "grow the buffer, then store directly into e->buffer.data" (the ppm/png style).
- * The byte sequence it means to emit (REF, TOTAL) is computed by the harness from the same operation list.
+ * The exporter is an export module whose export() performs 4 operations taken from everything export.h allows a
+ * module to do:
+ *    vbi_export_write, vbi_export_putc, vbi_export_puts (string / NULL), vbi_export_flush, and
+ *    "grow the buffer, then store directly into e->buffer.data" (the ppm/png style).
+ * Byte counts (L0..L3) and operation kinds (KINDS) come from the grid (every kind that appends that many bytes is
+ * enumerated), byte contents and the exporter's return value are symbolic.  The byte sequence it means to emit (REF,
+ * TOTAL) is computed by the harness from the same operation list.
+ * (Symbolic lengths: symbolic-size realloc/memcpy -> 10 GB, no result in 140 s.  Symbolic kinds with concrete lengths:
+ *  the buffer pointer becomes a 3..5-way choice of heap objects per operation -> no result in 290 s.)
  *
- *   h_c16_mem    vbi_export_mem into an exact-size heap object of BUFSZ bytes (grid 0..NOPS*LMAX+1, TOTAL symbolic:
- *                every relation BUFSZ <,=,> TOTAL occurs): returns TOTAL, the first min(BUFSZ,TOTAL) bytes are REF,
- *                buffer[BUFSZ] is never touched (object bounds), export object left clean; then vbi_export_alloc
- *                with the same exporter: TOTAL bytes, equal to REF.
- *   h_c16_stdio  vbi_export_stdio through the fwrite model: TRUE => stream contents == REF; FALSE (injected short
- *                write) => contents are a proper prefix of REF.
+ *   h_c16_mem    vbi_export_mem into an exact-size heap object of BUFSZ bytes (grid 0..TOTAL+1): returns TOTAL, the
+ *                first min(BUFSZ,TOTAL) bytes are REF, buffer[BUFSZ] is never touched (object bounds), export object
+ *                left clean; then vbi_export_alloc with the same exporter: TOTAL bytes, equal to REF.
+ *   h_c16_stdio  vbi_export_stdio through the fwrite model: TRUE <=> exporter ok and no short write; TRUE => stream
+ *                contents == REF; FALSE => contents are a prefix of REF.
  *   h_c16_file   vbi_export_file through the open/write/close/stat/unlink model: TRUE => file == REF, closed once,
  *                not unlinked; FALSE => closed iff opened, unlinked iff regular, contents a prefix of REF.
- *   h_c16_big    one write of 4096 bytes (the fast_write path that by-passes the buffer) between two small ones,
- *                fd target: same bytes in the same order.
+ *   h_c16_big    (-DG_BIG) one write of 4096 bytes (the fast_write path that by-passes the buffer) between two small
+ *                ones, stdio or file target: same bytes in the same order.
  */
 #include "verif.h"
 #include "c16_io.h"
